@@ -586,6 +586,9 @@ def run_fll(fl, text):
             out2 = fl.FllExporter().to_string(fl.FllImporter().from_string(REWRAP(out)))
             if str(out2) != str(out):
                 post = AssertionError("the export does not re-import to itself: %r vs %r" % (str(out), str(out2)))
+            # an accepted document has had every rule checked against the engine, whether or not its block is enabled
+            elif not all(r.is_loaded() for rb in eng.rule_blocks for r in rb.rules):
+                post = AssertionError("imported, but a rule was not loaded (its text was never checked against the engine)")
         except Exception as ex:
             if type(ex).__name__ in ("BudgetExceeded", "Unsupported"): raise
             post = ex
@@ -596,7 +599,7 @@ exec(PY_RUN_FLL, _ns)
 run_fll = _ns["run_fll"]
 
 
-def ob_fll(line, shape, mode, label):
+def ob_fll(line, shape, mode, label, disabled_block=False):
     """the base document with line `line` replaced by (mode 'replace') or preceded by (mode 'insert') a symbolic line of the
     given shape: 'K:n' = symbolic key and n symbolic value tokens, 'K' = a symbolic word without colon, '=:n' = the original
     key with n symbolic value tokens"""
@@ -638,6 +641,8 @@ def ob_fll(line, shape, mode, label):
                     lines.append(indent + line_text(const(k), [sym() for _ in range(int(shape[2:]))]))
                 if mode == "replace":
                     continue
+            if disabled_block and k == "enabled" and i > 0 and FLL_BASE[i - 1][0] == "RuleBlock":
+                vs = ["false"]      # the rule block is disabled: its rules are imported - and checked - all the same
             lines.append(indent + line_text(const(k), [const(v) for v in vs]))
         doc = "\n".join(lines)
         pre = [vocab.domain(k) for k in kinds]
@@ -764,4 +769,8 @@ def obligations(tier, seed):
             obs.append((f"fll/line{i}-{k}/replace/{sh}", ob_fll(i, sh, "replace", f"fll/line{i}-{k}/replace/{sh}")))
         for sh in (["K:1"] if q else ["K:1", "K:2"]):
             obs.append((f"fll/line{i}-{k}/insert/{sh}", ob_fll(i, sh, "insert", f"fll/line{i}-{k}/insert/{sh}")))
+        if k == "rule":
+            for sh in (["=:2", "=:3", "=:4"] if q else ["=:1", "=:2", "=:3", "=:4", "=:5", "=:6"]):
+                nm = f"fll/line{i}-{k}/replace/{sh}/disabled-block"
+                obs.append((nm, ob_fll(i, sh, "replace", nm, disabled_block=True)))
     return obs
